@@ -160,6 +160,8 @@ class Interp:
         elif ff:
             st.pc.append(z3.Not(cond))
             outs += kf(st)
+        elif os.environ.get("PYVC_TRACE"):
+            print(f"[dead path: neither branch feasible] trace={st.trace[-5:]}", flush=True)
         return outs
 
     def oblige(self, st, name, goal, kind="post", extra=None, clause=None, site_env=None):
@@ -233,7 +235,13 @@ class Interp:
         return mk_ref(loc)
 
     def alloc_set(self, st, lset):
-        loc = self.alloc(st, "builtins.frozenset" if lset.frozen else "builtins.set")
+        if lset.frozen:
+            # constant frozensets are interned by content: the same constant denotes the same object everywhere
+            li = self.w.singleton_loc("frozenset:" + repr(sorted(lset.items, key=repr)))
+            self.w.singleton_cls[li] = "builtins.frozenset"
+            loc = z3.IntVal(li)
+        else:
+            loc = self.alloc(st, "builtins.set")
         arr = z3.K(V, z3.BoolVal(False))
         for it in sorted(lset.items, key=repr):
             arr = z3.Store(arr, self.const_term(it), z3.BoolVal(True))
@@ -911,6 +919,11 @@ class Interp:
             return None
         if len(outs) == 1:
             self._lift_facts(st, outs, npc)
+            # the single path's assumptions (callee postconditions, the only feasible branch condition) hold here
+            if not os.environ.get("NO_MT"):
+                for c_ in outs[0].st.pc[npc:]:
+                    if id(c_) not in outs[0].st.facts:
+                        st.pc.append(c_)
             return outs[0].val
         # conditions are the pc suffixes; branches are exclusive and (under st.pc) exhaustive
         t = outs[-1].val.t
@@ -920,6 +933,10 @@ class Interp:
             if o.val.hint != hint:
                 hint = None
         self._lift_facts(st, outs, npc)
+        # keep what each alternative knows (callee postconditions live in the path conditions): their disjunction holds
+        conds = [self._branch_cond(o.st, npc) for o in outs]
+        if not any(z3.is_true(c_) for c_ in conds) and not os.environ.get("NO_MT"):
+            st.pc.append(z3.Or(conds))
         return Sym(t, hint)
 
     def _branch_cond(self, s, npc):
@@ -1220,6 +1237,8 @@ class Interp:
     def call_func(self, st, f, args, kwargs, fr, k, node=None):
         q = f.q
         c = self.reg.contracts.get(q)
+        if c is None and self.cur is not None and q == self.cur_q:
+            c = self.cur              # recursion of a function verified under a variant: its own contract
         if f.kind == "spec" or fr.spec:
             return self.inline(st, f, args, kwargs, fr, k, spec=True)
         if self.cur is not None:
@@ -1392,6 +1411,12 @@ class Interp:
         self.lazy += 1
         try:
             outs = self.ev(s0, node, fr, _val(None))
+        except Unsupported:
+            # a spec sub-expression evaluated under contradictory assumptions (a dead branch of and/or/implies)
+            # may not even be well-typed: any value will do there
+            if not self.feasible(st):
+                return Sym(FALSE)
+            raise
         finally:
             self.lazy -= 1
         good = []
@@ -1506,8 +1531,13 @@ class Interp:
             s3.pc.append(self.spec_bool(s3, expr, env3, old=pre))
         if not c.ensures_l and not c.raises_l and c.modifies_l is None:
             raise SpecError(f"empty contract for {c.q}")
-        if self.feasible(s3):
+        n_exc = len(outs)
+        normal_ok = self.feasible(s3)
+        if normal_ok:
             outs += k(s3, res)
+        if not normal_ok and n_exc == 0 and self.lazy == 0 and not fr.spec:
+            # vacuity guard: the callee's contract admits neither a return nor an exception from a reachable state
+            self.stats.setdefault("dead_calls", []).append(f"{short} at trace {st.trace[-4:]}")
         return outs
 
     def havoc(self, st, c, env, pre, mods):
